@@ -147,6 +147,38 @@ def recompose(epoch, upstream, revision):
     return s
 
 
+INT_MAX = 2147483647
+BIG_EPOCH_DIGITS = 10     # an epoch spelt with more digits than INT_MAX has is treated as large whatever its value
+
+
+def has_big_epoch(s):
+    """The text before the first colon is an all-ASCII-digit epoch that is larger than INT_MAX (what dpkg takes) or is
+    spelt with more than 10 digits (leading zeros)."""
+    if not isinstance(s, str) or ':' not in s:
+        return False
+    ep = s.split(':', 1)[0]
+    if ep == '' or any(c not in dpkgver.ASCII_DIGITS for c in ep):
+        return False
+    return len(ep) > BIG_EPOCH_DIGITS or int(ep) > INT_MAX
+
+
+def is_big_epoch_value(ep):
+    return isinstance(ep, str) and has_big_epoch(ep + ':')
+
+
+def classify(s):
+    """dpkgver.classify with one more class: 'big-epoch' = a MUST-ACCEPT string by syntax whose epoch exceeds INT_MAX.
+    Policy says "unsigned integer", dpkg refuses > INT_MAX: whether such a version must be accepted is UNSPECIFIED and
+    never judged; a string that is MUST-REJECT / UNSPECIFIED for another reason keeps that verdict."""
+    verdict = dpkgver.classify(s)
+    if verdict == 'accept' and has_big_epoch(s):
+        return 'big-epoch'
+    return verdict
+
+
+VALID = ('accept', 'big-epoch')      # syntactically valid Policy versions
+
+
 def reject_reason(s):
     """Why the Policy syntax excludes `s` (None when it does not).  Mirrors
     dpkgver.classify step by step; the two are asserted consistent in setup()."""
